@@ -206,6 +206,38 @@ fn generic_cases(o: &mut Out, r: &mut Rng, b: &[u64], n: usize) {
     o.case("const_dth", &[5], || vec![<F as Extendable<5>>::DTH_ROOT.0]);
 }
 
+/// packed field type of this build (width 1 scalar, 4 with AVX2, 8 with AVX-512): lane-wise results,
+/// canonicalised, must equal the scalar specification
+fn packed_cases(o: &mut Out, r: &mut Rng, b: &[u64], n: usize) {
+    use plonky2_field::packable::Packable;
+    use plonky2_field::packed::PackedField;
+    type PF = <F as Packable>::Packing;
+    let width = PF::WIDTH;
+    for i in 0..n {
+        let xs: Vec<F> = (0..width).map(|_| F(if i % 3 == 0 { *r.pick(b) } else { mixed_u64(r, b) })).collect();
+        let ys: Vec<F> = (0..width).map(|_| F(if i % 5 == 0 { *r.pick(b) } else { mixed_u64(r, b) })).collect();
+        let px = *PF::from_slice(&xs);
+        let py = *PF::from_slice(&ys);
+        let sum = px + py; let dif = px - py; let prd = px * py; let neg = -px; let sq = px.square();
+        for l in 0..width {
+            let (x, y) = (xs[l].0 as u128, ys[l].0 as u128);
+            o.case("padd", &[x, y], || vec![sum.as_slice()[l].to_canonical_u64()]);
+            o.case("psub", &[x, y], || vec![dif.as_slice()[l].to_canonical_u64()]);
+            o.case("pmul", &[x, y], || vec![prd.as_slice()[l].to_canonical_u64()]);
+            o.case("pneg", &[x], || vec![neg.as_slice()[l].to_canonical_u64()]);
+            o.case("psquare", &[x], || vec![sq.as_slice()[l].to_canonical_u64()]);
+        }
+        // interleave is its own inverse and a lane permutation (used by the packed FFT)
+        if width > 1 {
+            let (a, c) = px.interleave(py, 1);
+            let (a2, c2) = a.interleave(c, 1);
+            let ok = a2.as_slice() == px.as_slice() && c2.as_slice() == py.as_slice();
+            o.case("pinterleave_involution", &[width as u128], || vec![ok as u64]);
+        }
+    }
+    o.case("packed_width", &[], || vec![width as u64]);
+}
+
 pub fn run(seed: u64, tier: &str, w: &mut dyn Write) -> usize {
     let mut r = Rng::new(seed ^ 0xC14);
     let b = boundary_u64();
@@ -229,5 +261,6 @@ pub fn run(seed: u64, tier: &str, w: &mut dyn Write) -> usize {
     wide_cases(&mut o, &mut r, &b, nrand / 4);
     ext_cases(&mut o, &mut r, &b, nrand / 10);
     generic_cases(&mut o, &mut r, &b, nrand / 30);
+    packed_cases(&mut o, &mut r, &b, nrand / 10);
     o.n
 }
